@@ -483,6 +483,43 @@ theorem singles_conserved (m f : Nat) (hm : 1 ≤ m) (gs : List (Bool × Nat)) (
   have := triple_fee_not_deducted m f hm gs
   rw [h0] at this; omega
 
+/-- **value plus treasury payout minus the rebroadcast fee** (rule of the property): the payloads that can pay come back, in order,
+    each worth amount × multiplier − fee; the others do not come back -/
+theorem acct_back_exact (m f : Nat) (gs : List (Bool × Nat)) :
+    (acct true m f gs).back = (gs.filter (fun g => decide (g.2 * m > f))).map (fun g => g.2 * m - f) := by
+  induction gs with
+  | nil => simp [acct]
+  | cons g gs ih =>
+    simp only [acct]
+    split
+    · rename_i h; simp [h, backAmt, ih]
+    · rename_i h; simp [h, ih]
+
+/-- **handled exactly once**: every group is either rebroadcast (one payload comes back, one slip counted) or collected as fees —
+    the two counts add up to the number of groups, for either behaviour -/
+theorem acct_exactly_once (fd : Bool) (m f : Nat) (gs : List (Bool × Nat)) :
+    (acct fd m f gs).back.length = (acct fd m f gs).slips
+    ∧ (acct fd m f gs).slips + (gs.filter (fun g => decide (g.2 * m ≤ f))).length = gs.length := by
+  induction gs with
+  | nil => simp [acct]
+  | cons g gs ih =>
+    simp only [acct]
+    split
+    · rename_i h; simp [h] at ih ⊢; omega
+    · rename_i h; have h' : g.2 * m ≤ f := Nat.le_of_not_gt h; simp [h'] at ih ⊢; omega
+
+/-- what is collected from the groups that cannot pay is exactly their value -/
+theorem acct_nonrb (fd : Bool) (m f : Nat) (gs : List (Bool × Nat)) :
+    (acct fd m f gs).nonrb = sum ((gs.filter (fun g => decide (g.2 * m ≤ f))).map (·.2)) := by
+  induction gs with
+  | nil => simp [acct, sum]
+  | cons g gs ih =>
+    simp only [acct]
+    split
+    · rename_i h; simp [h] at ih ⊢; omega
+    · rename_i h; have h' : g.2 * m ≤ f := Nat.le_of_not_gt h; simp [h', sum] at ih ⊢; omega
+
+
 /-- non-vacuity and the witness replayed on the real code (a triple with payload 5000 between two plain outputs, fee 1200) -/
 example : (acct false 1 1200 (payloads [(0, 9000), (bound, 0), (0, 5000), (bound, 0), (0, 700)])).back = [7800, 5000]
     ∧ (acct true 1 1200 (payloads [(0, 9000), (bound, 0), (0, 5000), (bound, 0), (0, 700)])).back = [7800, 3800]
